@@ -49,8 +49,8 @@ type evSpec struct {
 	CatInt   bool    `json:"cat_int,omitempty"` // category stored as a non-string value
 	// OwnToken: the event reaches the bus already carrying a "token" key (attributes copied in from a peer, or an
 	// event relayed from elsewhere): 1 = a foreign string, 2 = a number.  What is delivered carries the sensor's token.
-	OwnToken int `json:"own_token,omitempty"`
-	SvcInt   bool    `json:"svc_int,omitempty"`
+	OwnToken int  `json:"own_token,omitempty"`
+	SvcInt   bool `json:"svc_int,omitempty"`
 }
 
 var c06Regex = []string{"ssh", "^ssh$", "redis", "^redis", "ftp|redis", "^(ssh|telnet)$", ".*", "^$", "heartbeat", "s", "[0-9]+", "x^"}
